@@ -264,6 +264,11 @@ func resolvePathFacts(pf pathFacts) (pathFacts, bool) {
 			if pos < 1 {
 				break
 			}
+			// the head of a loop in the middle of the path may have been entered
+			// from a back edge: its phis keep their value of the last visit
+			if pos < len(pf.blocks)-1 && isLoopHead(ph.Block()) {
+				break
+			}
 			found := false
 			for k, p := range ph.Block().Preds {
 				if p == pf.blocks[pos-1] {
@@ -289,4 +294,13 @@ func resolvePathFacts(pf pathFacts) (pathFacts, bool) {
 		}
 	}
 	return out, true
+}
+
+func isLoopHead(b *ssa.BasicBlock) bool {
+	for _, p := range b.Preds {
+		if b.Dominates(p) {
+			return true
+		}
+	}
+	return false
 }
